@@ -642,8 +642,9 @@ func stubTimeNow(ex *Exec, fn *ssa.Function, args []Value) []Value {
 	ts := ex.ts
 	if ex.clockFrozen {
 		// harness asked for a clock that stands still at a fixed instant (2024-01-01 00:00:00 UTC)
+		// (not recorded as an input: natively vrtNow returns the same instant when the script has no
+		// clock reading next, whichever goroutine asks)
 		sec, nsec := ts.Const(64, 63839664000), ts.Const(64, 0)
-		ex.inputs = append(ex.inputs, inputRec{Label: "time.Now", Kind: "clock", Terms: []*Term{sec, nsec}})
 		return []Value{StructV{f: []Value{nsec, sec, PtrV{}}}}
 	}
 	ex.nowSeq++
